@@ -23,7 +23,8 @@ RULE = ("two independent scripts (client->peer, peer->client): 0..8 chunks with 
         "uploads afterwards, both at once (all bytes and a clean end on both sides), the destination resets its connection after M bytes (the client must see a failure, not an end of stream), "
         "the client's connection / stream is reset (the endpoint must let go of the destination), also while the tunnel is back-pressured: the destination leaves its socket unread for 3 s, "
         "the client uploads until nothing more is taken from it and fails then, the destination reads on (what it receives is the beginning of what the client sent, and the endpoint must "
-        "let go of the destination once that has been delivered); an HTTP/3 client whose request stream alone was reset must not be shown a clean end of the download, "
+        "let go of the destination once that has been delivered), and, HTTP/3 only, right behind an upload of 1000000 bytes in DATA frames of 50000 bytes sent without a pause "
+        "(the history is repeated up to 60 times on fresh endpoints, the first round that fails is the one judged); an HTTP/3 client whose request stream alone was reset must not be shown a clean end of the download, "
         "the destination not having ended its stream")
 
 
@@ -59,12 +60,19 @@ def gen_cases(rng, ctx):
         ends.append((proto, 3, 0, 5000))
         ends.append((proto, 4, 5000, 0))
         ends.append((proto, 5, 0, 0))
+        if proto == 3:
+            # the reset right behind the last DATA frames: an endpoint that takes it for the end of the upload does so only when the
+            # reset meets a partly read DATA frame in quiche's HTTP/3 layer, i.e. when the endpoint lags behind the client: with 1000-byte
+            # frames and 300000 bytes about one round in ten, and hardly ever on a quiet machine; with 50000-byte frames and 1000000
+            # bytes in most rounds (7 of 7 runs failed within 3 rounds, solitary as well as under load). One case repeats the history
+            # on fresh endpoints and stops at the first failing round; a passing round takes about 0.1 s
+            ends.append((proto, 6, 1000000, 50000, 120 if thorough else 60))
         if thorough:
             ends += [(proto, 3, 1000, 100000), (proto, 4, 100000, 0)]
-    for proto, scen, n, m in ends:
-        li = line("c02_ends", [[proto, scen, n, m]])
+    for proto, scen, n, m, *rounds in ends:
+        li = line("c02_ends", [[proto, scen, n, m] + rounds])
         cases.append(Case(li, None, kind="endpoint:ends-h%d-%s" % (proto, ENDS[scen][0]), nontrivial=True,
-                          meta={"ends": True, "proto": proto, "scen": scen, "n": n, "m": m}))
+                          meta={"ends": True, "proto": proto, "scen": scen, "n": n, "m": m, "rounds": rounds[0] if rounds else 1}))
     return cases
 
 
@@ -78,6 +86,8 @@ ENDS = {
     4: ("client-reset", "the client uploads %(n)d bytes and then fails (HTTP/1.1, HTTP/2: its TCP connection is reset; HTTP/3: RESET_STREAM), the destination keeps its side open"),
     5: ("client-reset-under-back-pressure", "the destination does not read for 3 s, the client uploads until nothing more is taken from it and then fails (HTTP/1.1, HTTP/2: its TCP connection is reset; "
         "HTTP/3: RESET_STREAM), the destination then reads on and keeps its side open"),
+    6: ("client-reset-behind-its-upload", "the client uploads %(n)d bytes in DATA frames of %(m)d bytes without a pause and resets its request stream right behind the last of them "
+        "(RESET_STREAM, the connection lives on), the destination sends nothing and keeps its side open"),
 }
 
 
@@ -95,8 +105,11 @@ def judge_ends(case, impl, ctx):
     for both peers once both directions have ended; a failure of either side tears the tunnel down: it neither looks like an end of
     stream to the other peer nor leaves the other direction standing."""
     m = case.meta
-    status, up_got, up_same, up_end, down_got, down_same, down_end, released, waited, uploaded = untok(impl.split()[0])
+    status, up_got, up_same, up_end, down_got, down_same, down_end, released, waited, uploaded = untok(impl.split()[0])[:10]
     what = "HTTP/%s tunnel through the real endpoint, %s" % ({1: "1.1", 2: "2", 3: "3"}[m["proto"]], ENDS[m["scen"]][1] % m)
+    if m["scen"] == 6:
+        # the same history on fresh endpoints until a round fails: the round reported is judged like any other
+        what += " (round %d of %d, the rounds before it ended with the tunnel torn down)" % (untok(impl.split()[0])[10], m["rounds"])
     if status != 200:
         return [("disagree", "%s: CONNECT answered %d" % (what, status))]
     if not up_same:
@@ -120,6 +133,8 @@ def judge_ends(case, impl, ctx):
     # torn down: the endpoint lets go of the destination instead of passing an end of stream on and keeping the other direction standing
     if m["scen"] == 4 and up_got != m["n"]:
         return [("disagree", "%s: %d bytes reached the destination before the client failed" % (what, up_got))]
+    if m["scen"] == 6 and uploaded != m["n"]:
+        return [("disagree", "%s: the client could hand over only %d bytes" % (what, uploaded))]
     if m["scen"] == 5:
         what += " (the client handed %d bytes to its transport)" % uploaded
         if uploaded == 0:
@@ -133,7 +148,7 @@ def judge_ends(case, impl, ctx):
         ctx.setdefault("skipped_env", []).append(case.kind)
         return []
     if released == 0:
-        if m["scen"] == 5 and up_end:
+        if m["scen"] in (5, 6) and up_end:
             return [("violation", "%s: the destination saw %s after %d bytes, and %d ms later the endpoint still holds its connection to the destination open: "
                      "the client's failure is passed on as the end of its upload and the tunnel is not torn down" % (what, ends[up_end], up_got, waited))]
         return [("violation", "%s: %d ms after the client failed the endpoint still holds its connection to the destination open (the destination saw %s): the tunnel is not torn down"
